@@ -1161,7 +1161,15 @@ def route_echo(tier, rng, fam='C16'):
             b.step('hops', c=105, hp=[ret(pay='p5')])
             b.step('inj', dir='c2s', env=e)
             out.append(b.q().done())
-    return out
+    # complete calls and streams of real clients through proxy + demux, both encodings of the links: every envelope of
+    # a call - the fifth message of a stream like its opening - crosses the relay with the relay's name recorded once
+    from . import gen
+    base = [x for x in gen.c02('quick', rng) + gen.c01('quick', rng) if not x.get('topo')]
+    rv = gen.relay_variants(base, 'thorough', rng)
+    rv = rng.sample(rv, min(len(rv), 80 if tier == 'quick' else 800))
+    for x in rv:
+        x['ofam'], x['fam'] = x['fam'], fam
+    return out + rv
 
 
 # ------------------------------------------------------------- gate sweep -----
